@@ -24,6 +24,49 @@ def _raw_rem_calls(ctx, b):
     return out
 
 
+def _find_form(ctx, b, rems, comp_iter):
+    """drain_filter's step written with Iterator::find: (ok, why, predicate call, removal) or None if the body has another shape"""
+    from rules_typestate import option_test_edges, S as S_
+    finds = [c for c in ctx.calls(b) if c.method == "find" and c.self_adt in comp_iter and not b.is_cleanup(c.loc.bb) and c.closure_args()]
+    if len(finds) != 1 or len(rems) != 1:
+        return None
+    F, X = finds[0], rems[0]
+    cb = F.closure_args()[0]
+    why = []
+    ps = _pred_calls(ctx, cb)
+    if len(ps) != 1 or cb.loops():
+        return False, ["the closure given to find() calls the predicate %d times (expected exactly once, outside any loop)" % len(ps)], None, X
+    P = ps[0]
+    if not all(P.loc.bb == rb or P.loc.bb in cb.dom().get(rb, set()) for rb in cb.return_blocks()):
+        why.append("an element can be examined without calling the predicate")
+    s, args = cb.slice_back(P.loc, P.args[1:])
+    if 2 not in args:
+        why.append("the predicate is not applied to the element find() is looking at")
+    # the closure returns the predicate's verdict unchanged (find keeps the first element for which it is true)
+    rl = cb.ret_locals()
+    if not (P.dest is not None and not P.dest["proj"] and P.dest["local"] in rl):
+        why.append("the closure does not return the predicate's result unchanged (removal would happen on the wrong outcome)")
+    # the removal takes the bucket find() returned, on its Some outcome, and its result is returned
+    s2, _ = b.slice_back(X.loc, X.args[1:])
+    if F.loc not in s2:
+        why.append("the removed bucket is not the one find() returned")
+    dl = F.dest["local"]
+    holders = {dl}      # (a `?` on it is understood by option_test_edges itself)
+    edges = option_test_edges(ctx, b, lambda p: p.root in holders and not p.fields(), ignore_debug=False)
+    some_t = [e[1] for e, v in edges.items() if v == S_]
+    if not any(x == X.loc.bb or x in b.dom().get(X.loc.bb, set()) for x in some_t):
+        why.append("the removal is not confined to the outcome where find() found an element")
+    flows = False
+    for rb in b.return_blocks():
+        ret_op = {"k": "copy", "place": {"local": 0, "proj": [], "ty": b.locals[0]["ty"]}}
+        s3, _ = b.slice_back(Loc(rb, len(b.stmts(rb))), [ret_op])
+        if X.loc in s3:
+            flows = True
+    if not flows:
+        why.append("the removed element is not returned")
+    return (not why), why, P, X
+
+
 def rule_e9_polarity(ctx):
     R = RuleResult("E9-pol", "retain calls its predicate exactly once per yielded element and erases that element on exactly the `false` outcome; "
                    "drain_filter's step calls it exactly once per yielded element and removes-and-returns that element on exactly the `true` outcome")
@@ -34,6 +77,16 @@ def rule_e9_polarity(ctx):
             continue
         preds = _pred_calls(ctx, b)
         rems = _raw_rem_calls(ctx, b)
+        if rems and not preds and "self_ty" in b.raw and "DrainFilter" in ctx.facts.types[b.raw["self_ty"]]["s"]:
+            # the search loop handed to the standard library: `let item = self.iter.find(|item| pred(item))?; remove(item)`
+            r_ = _find_form(ctx, b, rems, comp_iter)
+            if r_ is not None:
+                n += 1
+                ok_, why_, P_, X_ = r_
+                R.inst(fn=b.path, expected="remove-on-true", shape="Iterator::find on the both-tables iterator", verdict="ok" if ok_ else "VIOLATION")
+                if not ok_:
+                    R.viol(b.path, X_.where(), "%s: %s" % (b.path, "; ".join(why_)))
+                continue
         if not preds or not rems:
             continue
         st_ty = ctx.facts.types[b.raw["self_ty"]]["s"] if "self_ty" in b.raw else ""
